@@ -1,4 +1,5 @@
 import Econf.Tool
+import Econf.Lemmas.GrammarLemmas
 
 /-!
   # C19 – econftool shows what an application would get
@@ -10,8 +11,9 @@ import Econf.Tool
   key the listing yields has its line there (`C19_key_shown`) and that line carries the key, ` = `
   and the value lines of the first definition (`C19_key_line`); an object that has only group-less
   keys is not shown as empty (`C19_groupless_only`, the historical defect F18).
-  Not covered by a theorem (correspondence check only): exit status of `syntax`, the file list of
-  `cat`, the escape translation of `--delimiters`.
+  `C19_decode`: the output decodes to exactly the lines the listing calls for, in order – nothing else
+  is printed.  Not covered by a theorem (correspondence check only): exit status of `syntax`, the file
+  list of `cat`, the escape translation of `--delimiters`.
 -/
 
 set_option linter.unusedSimpArgs false
@@ -114,5 +116,199 @@ theorem C19_groupless_only (kf : KeyFile) (e : Entry) (he : e ∈ kf.entries) (h
 /-- non-vacuity: `k=v` alone; the output is `k = v⏎⏎` -/
 example : toolShow { entries := [{ group := NONE, key := [0x6b], value := some [0x76], cb := none, ca := none, line := 1, quotes := false }],
                      groups := [NONE] } = [0x6b, 0x20, 0x3d, 0x20, 0x76, 0x0a, 0x0a] := by decide
+
+
+
+/-! ### the output read back: nothing else is printed
+
+The output is a sequence of lines of four kinds; `showLines` says which lines the listing of the
+object calls for, `toolShow_lines` that the output is exactly those lines, and `C19_decode` that the
+lines – hence every section, key and value line, in order, and nothing else – can be read back from the
+bytes of the output. -/
+
+inductive ShowLine where
+  | header (name : Str)
+  | key (k v : Str)
+  | cont (v : Str)
+  | blank
+  deriving DecidableEq, Repr
+
+def ShowLine.text : ShowLine → Str
+  | .header n => n
+  | .key k v => k ++ EQS ++ v
+  | .cont v => INDENT ++ v
+  | .blank => []
+
+def renderShow (ls : List ShowLine) : Str := (ls.map (fun l => l.text ++ [NL])).flatten
+
+def valueShowLines (k : Str) : List Str → List ShowLine
+  | [] => [.key k []]
+  | v :: vs => .key k v :: vs.map .cont
+
+theorem toolValueLines_show (k : Str) (vals : List Str) :
+    k ++ EQS ++ toolValueLines vals = renderShow (valueShowLines k vals) := by
+  cases vals with
+  | nil => simp [toolValueLines, valueShowLines, renderShow, ShowLine.text]
+  | cons v vs =>
+    simp only [toolValueLines, valueShowLines, renderShow, ShowLine.text, List.map_cons, List.flatten_cons, List.map_map]
+    simp only [List.append_assoc]
+    congr 3
+
+def keyShowLines (kf : KeyFile) (g : Option Str) (k : Str) : List ShowLine :=
+  match getExt kf g (some k) with
+  | .ok ev => valueShowLines k ev.values
+  | .error _ => []
+
+theorem toolKey_show (kf : KeyFile) (g : Option Str) (k : Str) : toolKey kf g k = renderShow (keyShowLines kf g k) := by
+  unfold toolKey keyShowLines
+  cases getExt kf g (some k) with
+  | ok ev => exact toolValueLines_show k ev.values
+  | error e => rfl
+
+theorem renderShow_append (a b : List ShowLine) : renderShow (a ++ b) = renderShow a ++ renderShow b := by
+  simp [renderShow]
+
+theorem renderShow_flatMap {α} (f : α → List ShowLine) (l : List α) :
+    renderShow (l.flatMap f) = (l.map (fun x => renderShow (f x))).flatten := by
+  induction l with
+  | nil => rfl
+  | cons x xs ih => rw [List.flatMap_cons, renderShow_append, ih]; rfl
+
+def blockShowLines (kf : KeyFile) (g : Option Str) : List ShowLine :=
+  match getKeys kf g with
+  | .error _ => (match g with
+    | none => []
+    | some name => [.header name, .blank])
+  | .ok ks => (match g with
+    | none => []
+    | some name => [.header name]) ++ ks.flatMap (keyShowLines kf g) ++ [.blank]
+
+theorem toolGroup_show (kf : KeyFile) (g : Option Str) : toolGroup kf g = renderShow (blockShowLines kf g) := by
+  unfold toolGroup blockShowLines
+  cases getKeys kf g with
+  | error e => cases g <;> simp [renderShow, ShowLine.text]
+  | ok ks =>
+    simp only [renderShow_append, renderShow_flatMap]
+    have : (ks.map (toolKey kf g)) = ks.map (fun x => renderShow (keyShowLines kf g x)) := by
+      apply List.map_congr_left; intro k _; exact toolKey_show kf g k
+    rw [this]
+    cases g <;> simp [renderShow, ShowLine.text]
+
+/-- the lines the listing of the object calls for -/
+def showLines (kf : KeyFile) : List ShowLine := (shownGroups kf).flatMap (blockShowLines kf)
+
+/-- **the output is exactly those lines** -/
+theorem toolShow_lines (kf : KeyFile) : toolShow kf = renderShow (showLines kf) := by
+  rw [toolShow_eq]
+  unfold showLines
+  rw [renderShow_flatMap]
+  congr 1
+  apply List.map_congr_left; intro g _; exact toolGroup_show kf g
+
+/-! #### reading the lines back -/
+
+/-- first occurrence of ` = ` -/
+def cut3 : Str → Option (Str × Str)
+  | [] => none
+  | c :: cs => if startsWith (c :: cs) EQS then some ([], (c :: cs).drop 3) else (cut3 cs).map (fun p => (c :: p.1, p.2))
+
+def classify (t : Str) : ShowLine :=
+  if t.isEmpty then .blank
+  else if startsWith t INDENT then .cont (t.drop 5)
+  else match cut3 t with
+    | some (k, v) => .key k v
+    | none => .header t
+
+/-- the lines of an output -/
+def decodeShow (out : Str) : List ShowLine := (splitLines out).map (fun l => classify l.dropLast)
+
+def ShowLine.WF : ShowLine → Prop
+  | .header n => n ≠ [] ∧ texts n ∧ startsWith n INDENT = false ∧ cut3 n = none
+  | .key k v => k ≠ [] ∧ (∀ c ∈ k, isText c = true ∧ c ≠ 0x20) ∧ texts v
+  | .cont v => texts v
+  | .blank => True
+
+instance (l : ShowLine) : Decidable l.WF := by cases l <;> (unfold ShowLine.WF; infer_instance)
+
+theorem cut3_key (k v : Str) (h : ∀ c ∈ k, c ≠ 0x20) : cut3 (k ++ EQS ++ v) = some (k, v) := by
+  induction k with
+  | nil => simp [cut3, EQS, startsWith]
+  | cons a as ih =>
+    have ha : a ≠ 0x20 := h a (by simp)
+    have hs : startsWith (a :: (as ++ EQS ++ v)) EQS = false := by
+      simp only [startsWith, EQS, List.length_cons, List.length_nil, List.take_succ_cons]
+      simp [ha]
+    simp only [List.cons_append, cut3, hs, Bool.false_eq_true, if_false]
+    rw [ih (fun c hc => h c (List.mem_cons_of_mem _ hc))]; rfl
+
+theorem classify_text (l : ShowLine) (h : l.WF) : classify l.text = l := by
+  cases l with
+  | blank => rfl
+  | header n =>
+    obtain ⟨hne, _, hi, hc⟩ := h
+    have : n.isEmpty = false := by cases n <;> simp_all
+    simp [classify, ShowLine.text, this, hi, hc]
+  | cont v =>
+    have h1 : (INDENT ++ v).isEmpty = false := by simp [INDENT]
+    have h2 : startsWith (INDENT ++ v) INDENT = true := startsWith_append INDENT v
+    have h3 : (INDENT ++ v).drop 5 = v := by simp [INDENT]
+    simp only [classify, ShowLine.text, h1, h2, Bool.false_eq_true, if_false, if_true, h3]
+  | key k v =>
+    obtain ⟨hne, hk, _⟩ := h
+    obtain ⟨k0, ks, rfl⟩ : ∃ k0 ks, k = k0 :: ks := by
+      cases k with
+      | nil => exact absurd rfl hne
+      | cons a as => exact ⟨a, as, rfl⟩
+    have hk0 : k0 ≠ 0x20 := (hk k0 (by simp)).2
+    have h1 : ((k0 :: ks) ++ EQS ++ v).isEmpty = false := by simp
+    have h2 : startsWith ((k0 :: ks) ++ EQS ++ v) INDENT = false := by
+      simp only [startsWith, INDENT, List.cons_append, List.length_cons, List.length_nil, List.take_succ_cons]
+      simp [hk0]
+    simp only [classify, ShowLine.text, h1, h2, Bool.false_eq_true, if_false, cut3_key (k0 :: ks) v (fun c hc => (hk c hc).2)]
+
+theorem showLine_isLine (l : ShowLine) (h : l.WF) : IsLine (l.text ++ [NL]) := by
+  refine ⟨l.text, rfl, ?_⟩
+  cases l with
+  | blank => intro c hc; cases hc
+  | header n => exact h.2.1
+  | cont v =>
+    exact texts_append (by intro c hc; simp only [INDENT, List.mem_cons, List.not_mem_nil, or_false] at hc; rcases hc with rfl | rfl | rfl | rfl | rfl <;> decide) h
+  | key k v =>
+    exact texts_append (texts_append (fun c hc => (h.2.1 c hc).1) (by intro c hc; simp only [EQS, List.mem_cons, List.not_mem_nil, or_false] at hc; rcases hc with rfl | rfl | rfl <;> decide)) h.2.2
+
+/-- reading back what was rendered -/
+theorem decode_render (ls : List ShowLine) (h : ∀ l ∈ ls, l.WF) : decodeShow (renderShow ls) = ls := by
+  unfold decodeShow renderShow
+  rw [splitLines_lines _ (by
+    intro x hx
+    obtain ⟨l, hl, rfl⟩ := List.mem_map.mp hx
+    exact showLine_isLine l (h l hl))]
+  rw [List.map_map]
+  induction ls with
+  | nil => rfl
+  | cons l ls ih =>
+    simp only [List.map_cons, Function.comp, List.dropLast_concat, classify_text l (h l (by simp))]
+    congr 1
+    exact ih (fun x hx => h x (List.mem_cons_of_mem _ hx))
+
+/-- **C19, nothing else.**  When the names, keys and value lines of the object are printable on one
+    line each (`ShowLine.WF`: no line break, keys without blanks, section names that do not look like a
+    key or an indented line), the output of `econftool show` decodes to exactly the lines the listing
+    calls for: one header per listed section, one line per listed key with its first value line, one
+    indented line per further value line, one empty line per block – in that order, nothing else. -/
+theorem C19_decode (kf : KeyFile) (h : ∀ l ∈ showLines kf, l.WF) : decodeShow (toolShow kf) = showLines kf := by
+  rw [toolShow_lines]; exact decode_render _ h
+
+
+/-- `g=0`, `[S]` with `x = a` / `b` (two value lines) and `y` without value -/
+def exShowKf : KeyFile :=
+  { entries := [⟨NONE, [0x67], some [0x30], none, none, 1, false⟩,
+                ⟨[0x53], [0x78], some [0x61, 0x0a, 0x20, 0x62], none, none, 4, false⟩,
+                ⟨[0x53], [0x79], none, none, none, 5, false⟩],
+    groups := [NONE, [0x53]] }
+
+example : decodeShow (toolShow exShowKf) =
+    [.key [0x67] [0x30], .blank, .header [0x53], .key [0x78] [0x61], .cont [0x62], .key [0x79] [], .blank] := by
+  rw [C19_decode exShowKf (by decide)]; decide
 
 end Econf
